@@ -16,4 +16,17 @@ CHECKS['C20'] = {'technique': MS, 'engine': 'mirsym',
 CHECKS['C18'] = {'technique': MS + '; assume/guarantee (leaf contracts proved from MIR, then used as summaries)', 'engine': 'mirsym',
     'text': 'Bounded symbolic verification: lerp / rate_from_u32 / util_from_u32 contracts are proved from their MIR for all inputs; the seven-point curve (5 points unrolled through iterator models, closure MIR executed) and calc_interest_rate are then decided with the leaves replaced by exactly those contracts. Legacy curve decided directly.',
     'note': 'Trusted: rustc MIR, library + iterator models, z3. The validator-accepts-only-VALID7 link is a separate obligation (C18.v); fee magnitudes bounded by 2^20.'}
+_H = 'Trusted: rustc MIR, library/iterator/Anchor models of the engine, z3; Anchor Signer/owner/discriminator checks, sha256 PDA derivation (uninterpreted), SPL token programs and Solana atomicity.'
+CHECKS['C06'] = {'technique': MS + '; lemma chain; handler-mode trace queries', 'engine': 'mirsym',
+    'text': 'Bounded symbolic verification: accrual kernels from MIR (monotone share values, non-negative fees, exact lending-side form), one-sided conservation through a 13-step lemma chain whose leaves are proved on the MIR of the leaf functions, accrue_interest frame/no-op obligations, and handler-mode ordering (accrual precedes every share read/write with the current clock) for deposit, withdraw, borrow, repay, liquidate, bankruptcy, close_balance.',
+    'note': _H + ' Magnitude bounds stated in the evidence (dt <= 10y, fees <= 1, base <= 10, A,L < 2^64).'}
+CHECKS['C08'] = {'technique': MS + ' applied to the Anchor-generated try_accounts code of every instruction', 'engine': 'mirsym',
+    'text': 'Bounded symbolic verification: is_signer_authorized / account_not_frozen_for_authority truth tables for all flag words; for each of the 78 #[derive(Accounts)] structs the acceptance condition of the generated constraint code (predicates inlined from MIR, PDAs as uninterpreted functions of their seeds) is shown to imply (a) the reference constraint set, (b) has_one=group on every bank/account, (c) vault binding to the bank, (d) the signer rule of the role the instruction names.',
+    'note': _H + ' Two integration structs (DriftHarvestReward, SolendInitObligation) are not encodable (symbolic index into a lazy array) and are reported as not decided.'}
+CHECKS['C13'] = {'technique': MS + '; assume/guarantee for calculate_max_leverage', 'engine': 'mirsym',
+    'text': 'Bounded symbolic verification of BankConfig::validate, calculate_max_leverage (exact contract, monotone) and validate_entries_with_liability_weights (10 entries unrolled; sliced by which entries are non-empty: all singletons + pairs).',
+    'note': _H + ' Write-path wiring (C13.d) and check_dupes are separate obligations; uniqueness of tags relies on sorted entries.'}
+CHECKS['C14'] = {'technique': MS + '; handler-mode trace queries; try_accounts acceptance conditions', 'engine': 'mirsym',
+    'text': 'Bounded symbolic verification: validate_bank_state equals the 4x4 reference table; is_protocol_paused equals the reference (expiry by clock alone, fail-closed on bad clock); every financial handler calls validate_bank_state with the required kind before any balance mutation and propagates its error; every fund-moving instruction struct carries the pause constraint and is accepted again after expiry.',
+    'note': _H}
 NOT_APPLICABLE = {}
